@@ -64,6 +64,38 @@ fn main() {
         std::process::exit(2);
     };
     vh::common::install_panic_hook();
+    {
+        // blocked-step supervisor: a harness-driven router step that sleeps without consuming CPU time has halted
+        let (property, check, tier_s, level) = (ctx.property.clone(), id.clone(), if ctx.quick() { "quick" } else { "thorough" }, prop.meta.level);
+        let (seed, start, replaying, evidence) = (ctx.seed, ctx.start, ctx.replaying, evidence.clone());
+        let secs = std::env::var("VERIF_BLOCK_SECS").ok().and_then(|v| v.parse().ok()).unwrap_or(20u64);
+        vh::watch::start(secs, move |v| {
+            let owns = matches!(property.as_str(), "C03" | "C14");
+            let (oracle, message) = if property == "C14" {
+                ("broker-lost", format!("the routing core halted: router step {} has been blocked (sleeping, no CPU time consumed) for {} s with the well-behaved pair connected", v.kind, v.blocked_for_s))
+            } else {
+                ("router-step-blocked", format!("the routing core halted: router step {} has been blocked (sleeping, no CPU time consumed) for {} s", v.kind, v.blocked_for_s))
+            };
+            let doc = vh::watch::evidence(&property, tier_s, seed, level, start.elapsed().as_secs_f64(), if owns { 1 } else { 0 }, &v);
+            if let Some(dir) = std::path::Path::new(&evidence).parent() {
+                std::fs::create_dir_all(dir).ok();
+            }
+            std::fs::write(&evidence, serde_json::to_string_pretty(&doc).unwrap()).ok();
+            if owns {
+                let dir = if replaying { "/verif/target" } else { "/verif/replays" };
+                std::fs::create_dir_all(dir).ok();
+                let path = format!("{dir}/{}{check}-{seed}-halt.json", if replaying { "replayed-" } else { "" });
+                let rec = serde_json::json!({"property": property, "oracle": oracle, "message": message, "facts": {"site": "router-step-blocked", "step": v.kind}});
+                let file = serde_json::json!({"check": check, "property": property, "seed": seed, "tier": tier_s, "message": message, "record": rec, "replay": v.replay});
+                std::fs::write(&path, serde_json::to_string_pretty(&file).unwrap()).ok();
+                println!("  violated: [{oracle}] {message}");
+                println!("VIOLATION property={property} replay={path}");
+                std::process::exit(1);
+            }
+            println!("INCONCLUSIVE property={property} reason=a router step blocked for good (the routing core halted: C03's concern); this check cannot continue");
+            std::process::exit(2);
+        });
+    }
     let stats = match replay {
         Some(path) => {
             let text = std::fs::read_to_string(&path).expect("replay file");
